@@ -106,13 +106,16 @@ class Builder:
             sh.set(i, 'D'); sh.closure([i], True)
         return True
     def delnull(self):
-        """del(NULL): at top level, or from the destructor of an object that is deleted explicitly right away (never left armed
-        for a collection: that is known finding KF-C17-null-del-sweep)"""
+        """del(NULL): at top level, from the destructor of an object that is deleted explicitly right away, or armed on an object
+        and left for whatever releases it — a later del, or a collection (GC_Rem_Ptr(NULL) during GC_Sweep's finalisation: the
+        territory of the repaired KF-C17-null-del-sweep, fix d3e4e44)"""
         sh = self.sh; rng = self.rng
-        if rng.random() < 0.4: self.emit('delnull'); return True
+        r = rng.random()
+        if r < 0.25: self.emit('delnull'); return True
         i = sh.pick(rng, 'M', 'U')
         if i is None: self.emit('delnull'); return True
         self.emit(f'killnull {i}')
+        if r < 0.65: return True          # left armed
         if sh.st[i] == 'U':
             self.emit(f'delraw {i}'); sh.set(i, 'D'); sh.closure([i], sh.running)
         else:
@@ -154,6 +157,33 @@ class Builder:
         dead = [i for i in sh.ids('M') if not sh.root[i] and i % m == r]
         for i in dead: sh.set(i, 'D')
         sh.closure(dead, sh.running)
+    def stalemark(self):
+        """a mark phase left by an exception (mark bits stay), then — usually at once — a collection through the real GC_Mark, which
+        must start from clear bits (fix d8f0c4f).  Only with a registered root: the harness looks at the bits from GC_Mark's root loop."""
+        sh = self.sh; rng = self.rng
+        man = sh.ids('M')
+        if not sh.running or not any(sh.root.get(j) for j in man): return False
+        cand = [j for j in man if not sh.root[j]]
+        if not cand: return False
+        st = rng.sample(cand, min(len(cand), rng.choice([1, 1, 2, 3, 6])))
+        if rng.random() < 0.2:
+            o = sh.pick(rng, 'U', 'D')
+            if o is not None: st.append(o)
+        self.emit('stalemark ' + ' '.join(map(str, st)))
+        r = rng.random()
+        if r < 0.55: self.sweep(p=rng.choice([0.0, 0.3, 0.7]), collect=True)
+        elif r < 0.85: self.new(kind='tnewx')
+        elif r < 0.93:
+            # GC_Sweep on the bits as they are: the stale-marked objects survive this one
+            keep = set(j for j in st if sh.st.get(j) == 'M')
+            marked = [j for j in man if rng.random() < 0.3]
+            self.emit('sweep ' + ' '.join(map(str, marked)))
+            ms = set(marked) | keep
+            dead = [j for j in man if not sh.root[j] and j not in ms]
+            for j in dead: sh.set(j, 'D')
+            sh.closure(dead, sh.running)
+        # else: left pending (later dels, rehashes, plain allocations see the bits)
+        return True
     def kill(self):
         sh = self.sh; rng = self.rng
         a, b = sh.pick(rng, 'M', 'U', 'D'), sh.pick(rng, 'M', 'U', 'D')
@@ -172,7 +202,8 @@ class Builder:
         elif r < p_new + 0.47: self.kill()
         elif r < p_new + 0.485: self.emit('stop'); sh.running = False
         elif r < p_new + 0.495: self.delraw()
-        elif r < p_new + 0.505: self.delnull()
+        elif r < p_new + 0.510: self.delnull()
+        elif r < p_new + 0.535: self.stalemark() or self.mem()
         else: self.new() or self.mem()
 
 def mixed_case(rng, name, fam_k, n_ids, n_ops, waves=3):
@@ -192,6 +223,7 @@ def grow_case(rng, name, fam_k, n_ids, every=1, kills=True):
         while b.new(kind=rng.choices(['new', 'newroot'], [9, 1])[0]):
             if rng.random() < 0.03: b.mem()
             if kills and rng.random() < 0.02: b.kill()
+            if kills and rng.random() < 0.004: b.delnull()
         if rnd == 0:
             while len(b.sh.by['M']):
                 b.delete()
@@ -234,15 +266,20 @@ class C17(Spec):
                   '(wrap-around included), GC_Sweep as a whole against a ledger; C17_rem_nested / C17_nested_simulation: GC_Rem with destructors that '
                   'delete other objects, in any well-formed state including mid-sweep with objects on the pending list, refines the same recursion on '
                   '(ledger, pending addresses) and terminates within the fuel; C17_sweep_destructors / C17_registry_exact_destructors / '
-                  'C17_progress_destructors: the same history theorem when destructors delete other (non-NULL) objects during a sweep or a removal, by '
+                  'C17_progress_destructors / C17_progress_all_destructors: the same history theorem when destructors delete any pointers, NULL included '
+                  '(GC_Rem_Ptr returns at once for NULL: gcRemPtr_tests_null, read from the source), during a sweep or a removal, by '
                   'induction over the history for every ledger the abstract transitions allow (ReachK has no well-formedness premise); '
                   'C17_ledger_choice_irrelevant: the ledger after a collection does not depend on the order in which the sweep lists the reclaimed '
                   'objects (the nested finalisation is a depth-first traversal of the destructor graph). Excluded regions, each with a refutation on a '
-                  'concrete witness that the C code reproduces: C17_null_del_in_sweep_refuted / C17_progress_all_destructors_refuted (a destructor '
-                  'calling del(NULL): fine under del, ValueError inside GC_Sweep), C17_stopped_window_refuted with C17_registry_exact_ideal_partial '
+                  'concrete witness that the C code reproduces: C17_stopped_window_refuted with C17_registry_exact_ideal_partial '
                   '(ledger of the property text, a function of the history: exact outside the stop..start window, violated inside it: F23), '
                   'C17_dealloc_refuted / C17_dealloc_reuse_refuted / C17_dealloc_twice_refuted (dealloc / dealloc_root leave a stale entry; the address '
-                  'allocated again is counted twice, keeps the old root flag or is recorded twice). C17_invB_sound: the executable '
+                  'allocated again is counted twice, keeps the old root flag or is recorded twice). Repaired regions, with the refutation kept about an '
+                  'explicit OLD variant of the model: C17_null_del_in_sweep_fixed vs C17_null_del_in_sweep_old_refuted / '
+                  'C17_progress_all_destructors_old_refuted / C17_progress_destructors_old_partial (gcCfgOldRem: a destructor calling del(NULL) was fine '
+                  'under del, ValueError inside GC_Sweep; fix d3e4e44); C17_collection_ignores_stale_marks / C17_teardown_ignores_stale_marks vs '
+                  'C17_stale_marks_old_refuted (gcCfgOldMark: a mark bit left by an interrupted mark phase kept a dead object registered; GC_Mark and '
+                  'GC_Del call GC_Unmark first: gcMark_unmarks_first, fix d8f0c4f). C17_invB_sound: the executable '
                   'invariant the driver evaluates implies the propositional one. Source-derived: GC_Ideal_Size(n) > n over the generated prime table '
                   'and load factor, GC_Probe = cyclic distance, GC_Hash = p/8. The model is tied to the real GC.c by comparing the complete entry '
                   'array, counters, bounds and deallocation order after every operation on histories whose addresses collide modulo every registry size.')
@@ -253,7 +290,8 @@ class C17(Spec):
                   'the sweep lists the reclaimed objects), not a function of the history. '
                   'Not covered: the mark phase itself (C01), finalisation accounting (C06), other threads (C13), allocation inside destructors.')
     rule = ('histories of new/newroot/newraw/tnew/tnewx(threshold path of GC_Set, exact: marks reduced to roots+listed+new between the real GC_Mark and '
-            'GC_Sweep)/del/delroot/delraw/delnull/killnull+del/mem/sweep(marked set)/collect(real GC_Mark)/kill/stop/start over probe objects whose '
+            'GC_Sweep)/del/delroot/delraw/delnull/killnull(destructor calls del(NULL); also left armed for collections)/mem/sweep(marked set)/collect(real '
+            'GC_Mark)/stalemark(mark bits left by an interrupted mark phase, then collect/tnewx/sweep)/kill/stop/start over probe objects whose '
             'addresses are chosen in one residue class modulo the product of the first k registry sizes 5,11,23,53,101,197,389 (k = 3..7) plus strays; '
             '(a) mixed histories over small pools (tables of 1..101 slots, constant wrap-around, grow and shrink), (b) growth through the primes to '
             'the pool size and back down by deletions and by collections, (c) GC_Ideal_Size change points on a range, (d) corpus. Every op is run on the '
@@ -264,6 +302,7 @@ class C17(Spec):
                     'IEEE double division in GC_Ideal_Size modelled as floor((n+1)*10/9): compared with the C function on 0..2*10^5 (quick) / 0..10^7 (thorough); '
                     'the two agree for every n < 3*10^8 and first differ above 2^53 (53-bit mantissa)',
                     'harness hook between GC_Mark and GC_Sweep (op tnewx): a `realloc` macro in h_reg.c routes the library\'s realloc calls through a callback',
+                    'harness probe inside GC_Mark (stale mark bits): the Mark instance of the probe type, called by the root loop of GC_Mark',
                     'mmap at a fixed address, fork (libc) in the harness')
     assumptions = ('a new object\'s address is non-NULL, 8-byte aligned and differs from the live managed ones (malloc); counts < 2^53',
                    'objects are released through del / del_root / del_raw or the collector, never through dealloc / dealloc_root while registered '
@@ -271,8 +310,8 @@ class C17(Spec):
                    'generated histories follow the code in the stop..start window (allocation not recorded, del ignored: the ledger of theorem '
                    'C17_registry_exact); against the ledger of the property text this window is known finding KF-C17-stopped (op `strict`, witness '
                    'corpus/kf_c17_stopped.ops, never generated)',
-                   'no destructor calls del(NULL) while a collection finalises it (known finding KF-C17-null-del-sweep: witness '
-                   'corpus/kf_c17_null_del_sweep.ops); generated inputs use killnull only on an object deleted explicitly by the next op',
+                   'stalemark (stale mark bits) is generated only while a managed root is registered: the harness checks GC_Mark\'s prologue from '
+                   'the root loop; without a root the bits are only compared with the model after the collection',
                    'destructors delete but do not allocate managed objects during a sweep; the mark phase does not call del',
                    'single thread (each thread has its own registry)')
     def cases(self, rng, tier, boost=1):
@@ -302,7 +341,7 @@ class C17(Spec):
         items = set(); prev_n = None
         for o in core.lines_with('O ', c_out):
             w = o.split()
-            if len(w) < 4 or w[1] not in ('new', 'newroot', 'tnew', 'tnewx', 'del', 'delroot', 'delraw', 'delnull', 'sweep', 'sweepmod', 'collect'): continue
+            if len(w) < 4 or w[1] not in ('new', 'newroot', 'tnew', 'tnewx', 'del', 'delroot', 'delraw', 'delnull', 'sweep', 'sweepmod', 'collect', 'stalemark'): continue
             n = o.split(' n=')[1].split()[0] if ' n=' in o else None
             fin = o.split(' fin=')[1].split(' |')[0] if ' fin=' in o else ''
             es = _entries(o)
@@ -337,6 +376,9 @@ class C17(Spec):
                 if any(i < h for i, h in es): acc['dumps_with_wrapped_cluster'] = acc.get('dumps_with_wrapped_cluster', 0) + 1
             elif ' e=#' in o: acc['dumps_digest'] = acc.get('dumps_digest', 0) + 1
         for l in core.lines_with('R bad', m_out): acc['model_selfcheck_failures'] = acc.get('model_selfcheck_failures', 0) + 1
+        for l in core.lines_with('I ', c_out):
+            for k in ('del_null_during_sweep', 'gc_mark_probes_clear', 'gc_mark_probes_stale'):
+                if f' {k}=' in l: acc[k] = acc.get(k, 0) + int(l.split(f' {k}=')[1].split()[0])
     def model_selfcheck(self, case, m_out):
         bad = core.lines_with('R bad', m_out)
         return bad[0] if bad else None
